@@ -216,6 +216,9 @@ pub fn run_eval(w: &mut World, plan: &Plan, sched: &Sched, opts: &Opts) -> EvalO
     w.forget_superseded();
     let _ = take_transitions();
     let wr = Rc::new(w.clone());
+    // files deleted in this step vanish between the declaration of the graph and event_startup
+    w.deleted_in_step.clear();
+    let declared = Rc::new(Cell::new(false));
     let noise_hits = Rc::new(Cell::new(0usize));
     let comparisons = Rc::new(Cell::new(0usize));
     let hist: HashMap<String, String> = w.history.iter().map(|(k, v)| (k.clone(), v.clone())).collect();
@@ -226,18 +229,22 @@ pub fn run_eval(w: &mut World, plan: &Plan, sched: &Sched, opts: &Opts) -> EvalO
         let strat = StrategyForTesting::new();
         for s in w.active() {
             let id = w.id(s);
-            if id.split(":::").all(|p| wr.disk.contains_key(p)) {
+            if id.split(":::").all(|p| wr.disk.contains_key(p) || wr.deleted_in_step.contains(p)) {
                 strat.already_done.borrow_mut().insert(id);
             }
         }
+        let done = strat.already_done.clone();
+        let wr2 = wr.clone();
+        let at_startup = move || done.borrow_mut().retain(|id| id.split(":::").all(|p| wr2.disk.contains_key(p)));
         let g = PPGEvaluator::new_with_history(hist, strat);
-        let mut res = run_eval_g(w, plan, sched, opts, g, &noise_hits, &comparisons);
+        let mut res = run_eval_g(w, plan, sched, opts, g, &noise_hits, &comparisons, &at_startup);
         res.real_strategy = true;
         return res;
     }
     let present = {
         let wr = wr.clone();
-        Rc::new(move |q: &str| q.split(":::").all(|p| wr.disk.contains_key(p)))
+        let declared = declared.clone();
+        Rc::new(move |q: &str| q.split(":::").all(|p| wr.disk.contains_key(p) || (!declared.get() && wr.deleted_in_step.contains(p))))
     };
     let altered = {
         let wr = wr.clone();
@@ -268,7 +275,8 @@ pub fn run_eval(w: &mut World, plan: &Plan, sched: &Sched, opts: &Opts) -> EvalO
         input_list,
     };
     let g = PPGEvaluator::new_with_history(hist, strat);
-    run_eval_g(w, plan, sched, opts, g, &noise_hits, &comparisons)
+    let at_startup = move || declared.set(true);
+    run_eval_g(w, plan, sched, opts, g, &noise_hits, &comparisons, &at_startup)
 }
 
 fn run_eval_g<S: PPGEvaluatorStrategy>(
@@ -279,6 +287,7 @@ fn run_eval_g<S: PPGEvaluatorStrategy>(
     mut g: PPGEvaluator<S>,
     noise_hits: &Rc<Cell<usize>>,
     comparisons: &Rc<Cell<usize>>,
+    at_startup: &dyn Fn(),
 ) -> EvalOut {
     let mut res = EvalOut::default();
     let mut nodes = w.active();
@@ -340,6 +349,7 @@ fn run_eval_g<S: PPGEvaluatorStrategy>(
     }
 
     PHASE.with(|p| p.set("run"));
+    at_startup();
     chk!(g.event_startup(), "event_startup");
     let mut started: BTreeSet<String> = BTreeSet::new();
     let mut running: Vec<String> = vec![];
